@@ -324,7 +324,7 @@ func nontrivial(t *tree) bool {
 func main() {
 	cfg := vh.ParseFlags()
 	r := vh.NewRand(cfg.Seed)
-	out := vh.NewOut(cfg.Out, "From Coq Require Import List Bool Arith.\nImport ListNotations.\nFrom LinDBV.C19 Require Import Model Check.\n")
+	out := vh.NewOut(cfg.Out, "From Coq Require Import List Bool Arith.\nImport ListNotations.\nFrom LinDBV.C19 Require Import Model Leaf Check.\n")
 	var trees []*tree
 	// exhaustive small trees (<= 3 stages: 8 + 64 + 1024 = 1096 trees), each under one PRNG-chosen completion order
 	maxExh := 3
@@ -364,5 +364,6 @@ func main() {
 				t.coq(), vh.List(cbs), res.Completed, vh.Bool(res.Failed), res.UnfinAtCb, vh.Bool(res.Panic), vh.Bool(res.Hang), res.Tails))
 		}
 	}
+	leafRequests(out, r, cfg.N/6+4)
 	out.Finish()
 }
